@@ -23,10 +23,23 @@ import vcommon as V
 
 sys.path.insert(0, os.path.join(V.VERIF, "translator"))
 import c04_consts as TC  # noqa
+import c01_grow as TG  # noqa
 
 SAN_ENV = {"ASAN_OPTIONS": "detect_leaks=0:abort_on_error=0:allocator_may_return_null=1:detect_stack_use_after_return=0",
            "UBSAN_OPTIONS": "print_stacktrace=1:halt_on_error=1"}
-CASE_TIMEOUT = 10.0
+CASE_TIMEOUT = 10.0          # seconds of CPU time of the harness process per answer (a spinning parser burns CPU)
+WALL_TIMEOUT = 150.0         # seconds of wall-clock time per answer (a blocked process); generous: the machine may be loaded
+
+
+def cpu_seconds(pid):
+    """user+system CPU time consumed so far by process [pid] (Linux /proc); None when it cannot be read"""
+    try:
+        with open("/proc/%d/stat" % pid) as f:
+            st = f.read()
+        f_ = st[st.rindex(")") + 2:].split()
+        return (int(f_[11]) + int(f_[12])) / float(os.sysconf("SC_CLK_TCK"))
+    except Exception:
+        return None
 
 
 def hx(b):
@@ -669,8 +682,9 @@ KNOWN_PREDICATES = {"nonascii_encoding_decl": nonascii_encoding_decl}
 
 
 def run_watchdog(binpath, lines, env):
-    """run the harness; returns (answers, status, stderr) where status in ok|crash|hang; one answer per request line,
-    10 s allowed per answer"""
+    """run the harness; returns (answers, status, stderr) where status in ok|crash|hang; one answer per request line.
+    hang = the harness used more than CASE_TIMEOUT seconds of CPU time on one request (independent of the load of the
+    machine) or did not answer within WALL_TIMEOUT seconds of wall-clock time"""
     e = dict(os.environ)
     e.update(env)
     p = subprocess.Popen([binpath], stdin=subprocess.PIPE, stdout=subprocess.PIPE, stderr=subprocess.PIPE, env=e)
@@ -697,6 +711,7 @@ def run_watchdog(binpath, lines, env):
     status = "ok"
     fd = p.stdout.fileno()
     last = time.time()
+    last_cpu = 0.0
     while len(answers) < len(lines):
         r, _, _ = select.select([fd], [], [], 1.0)
         if r:
@@ -713,9 +728,13 @@ def run_watchdog(binpath, lines, env):
                 ln, buf = buf.split(b"\n", 1)
                 answers.append(ln.decode("ascii", "replace"))
                 last = time.time()
-        elif time.time() - last > CASE_TIMEOUT:
-            status = "hang"
-            break
+                last_cpu = cpu_seconds(p.pid) or last_cpu
+        else:
+            cpu = cpu_seconds(p.pid)
+            wall = time.time() - last
+            if (cpu is not None and cpu - last_cpu > CASE_TIMEOUT) or (cpu is None and wall > CASE_TIMEOUT) or wall > WALL_TIMEOUT:
+                status = "hang"
+                break
     try:
         p.kill()
     except Exception:
@@ -726,6 +745,110 @@ def run_watchdog(binpath, lines, env):
     if status == "ok" and len(answers) < len(lines):
         status = "crash"
     return answers, status, err
+
+
+def container_cases(rng, g):
+    """seeded operation sequences aimed at the case splits of Proofs01g.v: capacities 0..5 (where x1.25 / x1.5 truncate to
+    no growth), the points where the percentage growth overtakes count+1, inserts at 0 / middle / count / count+1 (throws),
+    ensureExtraCapacity around capacity-count, rehash thresholds 3/4 of the moduli 2m+1, the 64 / 96 / 144 steps of the
+    string pool and size-1 / size / 1.5 x size of the id pool"""
+    out = []
+    for kind in ("vv", "rv"):
+        for t in range(40):
+            cap = rng.choice([0, 0, 1, 2, 3, 4, 5, 8, 10, 16, rng.randrange(0, 70)])
+            ops, cur, mx = [], 0, cap
+            for _ in range(rng.choice([12, 40, 90, 160])):
+                r = rng.random()
+                if r < 0.55:
+                    ops.append("a"); cur += 1
+                elif r < 0.70:
+                    at = rng.choice([0, cur // 2, cur, cur, cur + 1, cur + 7, max(cur - 1, 0)])
+                    ops.append("i%d" % at)
+                    if at <= cur:
+                        cur += 1
+                elif r < 0.82:
+                    at = rng.choice([0, cur // 2, max(cur - 1, 0), cur, cur + 3])
+                    ops.append("r%d" % at)
+                    if at < cur:
+                        cur -= 1
+                elif r < 0.97:
+                    ops.append("e%d" % rng.choice([0, 1, 2, 3, max(cur // 4 - 1, 0), cur // 4, cur // 4 + 1, cur // 2, cur // 2 + 1, rng.randrange(0, 200)]))
+                else:
+                    ops.append("c"); cur = 0
+            out.append((kind, "%s %d %s" % (kind, cap, " ".join(ops))))
+    for md in (1, 2, 3, 4, 5, 7, 11, 29, 109, rng.randrange(1, 200)):
+        out.append(("ht", "ht %d %d" % (md, rng.choice([0, 1, 2, 3, 50, 200, 400]))))
+        out.append(("ht", "ht %d %d" % (md, 3 * md // 4 + rng.choice([0, 1, 2, 3]))))
+    c0 = g["spInitCap"]
+    for n in sorted({0, 1, c0 - 2, c0 - 1, c0, c0 + 1, c0 * 3 // 2 - 1, c0 * 3 // 2, c0 * 3 // 2 + 1, c0 * 9 // 4, c0 * 9 // 4 + 1, 700,
+                     rng.randrange(0, 3000)}):
+        out.append(("sp", "sp %d" % n))
+    for init in sorted({0, 2, 3, 4, 5} | set(g["nipCallSizes"]) | {rng.randrange(2, 300)}):
+        eff = init or g["nipDefault"]
+        for n in sorted({0, 1, 2, 3, eff - 2, eff - 1, eff, eff + 1, eff * 3 // 2 - 1, eff * 3 // 2, eff * 3 // 2 + 2, rng.randrange(0, 900)}):
+            if n >= 0:
+                out.append(("nip", "nip %d %d" % (init, n)))
+    return out
+
+
+def container_trace_safe(ans):
+    """Spec oracle on an implementation answer of vv / rv: count <= capacity after every operation"""
+    for tok in ans.split()[1:]:
+        f = tok.split("/")
+        if len(f) == 3 and f[0].isdigit() and f[1].isdigit() and int(f[0]) > int(f[1]):
+            return False
+    return True
+
+
+def container_correspondence(ctx, g):
+    t0 = time.time()
+    if not os.path.exists(os.path.join(V.VERIF, "ocaml", "C01", "gen_c01.ml")):
+        ctx.violation("extraction", {"what": "extracted container model missing (theories/C01/Extract_C01.v did not build)"}, no_input=True)
+        return
+    xm = ctx.ocaml("C01", ["gen_c01"])
+    xh = ctx.harness("C01g", variant="lib-asan")
+    cases = container_cases(ctx.rng, g)
+    reqs = [c[1] for c in cases]
+    import C04 as C4
+    _, model, _ = C4.run_bin(xm, reqs)
+    if len(model) != len(reqs):
+        ctx.violation("container-model", {"what": "extracted container model answered %d of %d requests" % (len(model), len(reqs))}, no_input=True)
+        return
+    pos, ndiv, benign = 0, 0, []
+    kinds = {}
+    while pos < len(reqs) and ndiv < 4:
+        ans, status, err = run_watchdog(xh, reqs[pos:], SAN_ENV)
+        for k, a in enumerate(ans):
+            i = pos + k
+            ctx.count()
+            kinds[cases[i][0]] = kinds.get(cases[i][0], 0) + 1
+            if len(reqs[i].split()) > 4 or cases[i][0] in ("sp", "nip"):
+                ctx.distinct(reqs[i])
+            if a != model[i]:
+                if a.startswith("ok") and container_trace_safe(a) and not a.startswith("ok MODEL"):
+                    benign.append(i)
+                    ctx.note("container divergence (implementation trace still satisfies count<=capacity): %s impl=%s model=%s"
+                             % (reqs[i][:120], a[:160], model[i][:160]))
+                else:
+                    ndiv += 1
+                    ctx.violation("container-divergence", {"request": reqs[i], "impl": a, "model": model[i], "expect": model[i],
+                                                           "what": "container of util/ answers differently from the model that "
+                                                                   "T01_grow_* is proved about and violates count <= capacity / loses an element"})
+        pos += len(ans)
+        if status == "ok":
+            break
+        ndiv += 1
+        ctx.violation("sanitizer" if status == "crash" else "hang",
+                      {"request": reqs[pos] if pos < len(reqs) else None, "status": status, "stderr": err[-4000:], "tag": "sanitizer",
+                       "what": "sanitizer report / crash / hang while driving a growable container of util/"})
+        pos += 1
+    if benign and not ndiv:
+        i = benign[0]
+        ctx.violation("correspondence", {"request": reqs[i], "model": model[i], "divergences": len(benign),
+                                         "what": "the containers no longer follow the model T01_grow_* is proved about (capacity traces "
+                                                 "differ) although no access outside an allocation was observed"}, no_input=True)
+    ctx.coverage["container_correspondence"] = {"requests": len(reqs), "by_kind": kinds, "benign_divergences": len(benign)}
+    ctx.note("container correspondence under sanitizers: %d requests, %.1fs" % (pos, time.time() - t0))
 
 
 def run(ctx):
@@ -746,7 +869,16 @@ def run(ctx):
                       no_input=True)
         return
     consts = data["consts"]
-    ok, out, failed = ctx.prove(["Base", "Gen", "C05", "C04", "C01"], ["theories/C01/Properties_C01.vo"],
+    try:
+        gconsts = TG.generate()
+    except Exception as e:
+        ctx.note("translator c01_grow failed: %r" % (e,))
+        ctx.violation("translator", {"what": "translator/c01_grow.py no longer recognises the growth code of ValueVectorOf / "
+                                             "BaseRefVectorOf / RefHashTableOf / XMLStringPool / NameIdPool", "error": repr(e)},
+                      no_input=True)
+        return
+    ok, out, failed = ctx.prove(["Base", "Gen", "C05", "C04", "C01"],
+                                ["theories/C01/Properties_C01.vo", "theories/C04/Extract_C04.vo", "theories/C01/Extract_C01.vo"],
                                 props_file="theories/C01/Properties_C01.v")
     proof_broken = not ok
     if proof_broken:
@@ -755,13 +887,21 @@ def run(ctx):
     ctx.build_lib("lib-asan")
     xh = ctx.harness("C01", variant="lib-asan")
     xh04 = ctx.harness("C04", variant="lib-asan")
-    have_xm = os.path.exists(os.path.join(V.VERIF, "ocaml", "C04", "gen_c04.ml"))
-    xm = ctx.ocaml("C04", ["gen_c04"]) if have_xm else None
+    # the extracted reader model is produced by THIS check (Extract_C04.vo is a prove target above): a missing extraction
+    # is a broken tie, never a silent skip of the reader-level correspondence
+    if not os.path.exists(os.path.join(V.VERIF, "ocaml", "C04", "gen_c04.ml")):
+        ctx.violation("extraction", {"what": "extracted reader model missing (theories/C04/Extract_C04.v did not build): the "
+                                             "reader-level correspondence for T01_reader_inv cannot run",
+                                     "output": out[-2000:]}, no_input=True)
+        return
+    xm = ctx.ocaml("C04", ["gen_c04"])
 
     if ctx.replay:
         r = json.load(open(ctx.replay))
         req = r["request"]
         binp = xh04 if req.startswith("rd ") else xh
+        if req.split()[0] in ("vv", "rv", "ht", "sp", "nip"):
+            binp = ctx.harness("C01g", variant="lib-asan")
         ans, status, err = run_watchdog(binp, [req], SAN_ENV)
         ctx.note("replay: %s %s" % (status, ans))
         if status != "ok" or (ans and ans[0].startswith("FOREIGN")) or (r.get("expect") and ans != [r["expect"]]):
@@ -781,9 +921,12 @@ def run(ctx):
         bad = rreqs[len(ans)] if len(ans) < len(rreqs) else None
         ctx.violation("reader-" + status, {"request": bad, "status": status, "stderr": err[-4000:],
                                            "what": "sanitizer report / crash / hang while driving XMLReader operations"})
-    elif xm:
+    else:
         _, model, _ = C4.run_bin(xm, C4.model_lines(True, True, rreqs))
         model = model[3:]
+        if len(model) != len(ans):
+            ctx.violation("reader-model", {"what": "extracted reader model answered %d of %d requests" % (len(model), len(ans))},
+                          no_input=True)
         ndiv = 0
         for k, (a, m) in enumerate(zip(ans, model)):
             if a != m:
@@ -794,6 +937,9 @@ def run(ctx):
                                                                 "T01_reader_inv is proved"})
         ctx.coverage["traces_validated_against_impl"] = len(ans)
     ctx.note("reader-level under sanitizers: %d requests, %.1fs" % (len(ans), time.time() - t0))
+
+    # ---- 1b. container-growth correspondence (T01_grow_vv/rv/ht/sp/nip): extracted model vs. the ASan/UBSan library ----
+    container_correspondence(ctx, gconsts)
 
     # ---- 2. exploration: malformed documents x APIs x scanners x configurations ---------------------------------
     t1 = time.time()
